@@ -50,9 +50,8 @@ def optStr? (h : String) : Option (Option Str) := if h == "~" then some none els
 
 def fmtErr : Err → String
   | .lineTooLong | .tooManyHeaders | .badRequestLine | .unknownProtocol | .badMethod | .badStatusLine
-  | .invalidBody | .prematureClosure => "err http"
+  | .invalidBody | .invalidHeader | .prematureClosure => "err http"
   | .valueError => "err ValueError"
-  | .typeError => "err TypeError"
   | .unicodeError => "err UnicodeError"
   | .assertionError => "err AssertionError"
   | .outOfModel => "err out-of-model"
@@ -60,9 +59,9 @@ def fmtErr : Err → String
 def fmtHeaders (h : List (Str × Str)) : String :=
   toString h.length ++ String.join (h.map (fun kv => " " ++ hex kv.1 ++ " " ++ hex kv.2))
 
-def fmtParms (p : List (Bytes × Option Bytes)) : String :=
-  toString p.length ++ String.join (p.map (fun kv => " " ++ bytesToHex kv.1 ++ " " ++
-    (match kv.2 with | some v => bytesToHex v | none => "~")))
+def fmtParms (p : List (Str × Option Str)) : String :=
+  toString p.length ++ String.join (p.map (fun kv => " " ++ hex kv.1 ++ " " ++
+    (match kv.2 with | some v => hex v | none => "~")))
 
 def fmtOptBool : Option Bool → String
   | none => "~" | some true => "1" | some false => "0"
